@@ -258,6 +258,39 @@ static long long ipow(long long b, int e)
     return r;
 }
 
+// fast exact conversion (exact.h goes through decimal strings; machine-size values are the common case here)
+static bool fast_q(const rational_class &q, mpq_class &out)
+{
+    const integer_class &n = get_num(q), &d = get_den(q);
+    if (mp_fits_slong_p(n) && mp_fits_slong_p(d)) {
+        out = mpq_class(mp_get_si(n), mp_get_si(d));
+        return true;
+    }
+    out = to_mpq(q);
+    return true;
+}
+static bool fast_gq(const Basic &e, GQ &out)
+{
+    if (is_a<Integer>(e)) {
+        const integer_class &i = down_cast<const Integer &>(e).as_integer_class();
+        if (mp_fits_slong_p(i)) {
+            out.re = mpq_class(mp_get_si(i));
+            out.im = 0;
+            return true;
+        }
+        return to_gq(e, out);
+    }
+    if (is_a<Rational>(e)) {
+        out.im = 0;
+        return fast_q(down_cast<const Rational &>(e).as_rational_class(), out.re);
+    }
+    if (is_a<Complex>(e)) {
+        const Complex &c = down_cast<const Complex &>(e);
+        return fast_q(c.real_, out.re) && fast_q(c.imaginary_, out.im);
+    }
+    return false;
+}
+
 // ------------------------------------------------------------------ Gaussian-rational model (phases E, F)
 struct GM {
     int r = 0, c = 0;
@@ -292,7 +325,9 @@ static std::string gstr(const GM &m)
 }
 static RCP<const Basic> gq_basic(const GQ &g)
 {
-    auto q = [](const mpq_class &v) {
+    auto q = [](const mpq_class &v) -> RCP<const Number> {
+        if (v.get_num().fits_slong_p() && v.get_den().fits_slong_p())
+            return Rational::from_two_ints(v.get_num().get_si(), v.get_den().get_si());
         return Rational::from_two_ints(*integer(integer_class(v.get_num().get_str())), *integer(integer_class(v.get_den().get_str())));
     };
     RCP<const Number> re = q(g.re), im = q(g.im);
@@ -330,7 +365,7 @@ static bool compare_gm(const CSRMatrix &M, const GM &m, std::string &cls, std::s
     for (int i = 0; i < m.r; i++)
         for (unsigned k = M.p_[i]; k < M.p_[i + 1]; k++) {
             GQ g;
-            if (!to_gq(*M.x_[k], g)) {
+            if (!fast_gq(*M.x_[k], g)) {
                 cls = "entry-not-a-number";
                 detail = raw_str(M);
                 return false;
@@ -357,7 +392,7 @@ static bool compare_gm(const CSRMatrix &M, const GM &m, std::string &cls, std::s
         for (int k = 0; k < m.c; k++) {
             GQ g;
             RCP<const Basic> e = M.get(i, k);
-            if (e.is_null() || !to_gq(*e, g) || !(g == m.v[i * m.c + k])) {
+            if (e.is_null() || !fast_gq(*e, g) || !(g == m.v[i * m.c + k])) {
                 cls = "get-differs";
                 detail = "get(" + std::to_string(i) + "," + std::to_string(k) + ")=" + (e.is_null() ? "null" : sstr(e)) + " expected dense " + gstr(m) + "; "
                          + raw_str(M);
@@ -506,7 +541,7 @@ int main(int argc, char **argv)
         std::string bfs_done;
         for (auto sh : shapesA) {
             int n = sh.r * sh.c;
-            if (thorough ? n > 12 : n > 8) // quick: saturation up to 8 cells (3x3 closure is phase A); thorough: 9 cells, 12 if time allows
+            if (thorough ? n > 10 : n > 8) // quick: saturation up to 8 cells (3x3 closure is phase A); thorough: up to 10 cells
                 continue;
             if (!closure_clean[{sh.r, sh.c}] || past_deadline()) {
                 R.counters["B:bfs_skipped(shape had violations or deadline)"]++;
@@ -569,7 +604,7 @@ int main(int argc, char **argv)
     };
     std::vector<CooSet> coos = {{2, 2, 4, {0, 1, 2}, 2}, {2, 3, 3, {0, 1, 2}, 1}, {2, 2, 4, {1, -1}, 0}, {3, 3, 2, {0, 1, 2}, 0}};
     if (thorough)
-        coos = {{2, 2, 5, {0, 1, 2}, 2}, {2, 3, 4, {0, 1, 2}, 2}, {2, 2, 5, {1, -1}, 1}, {3, 3, 3, {0, 1, 2}, 1}, {3, 2, 4, {0, 1, -1}, 1}, {1, 4, 4, {0, 1, 2}, 2}};
+        coos = {{2, 2, 4, {0, 1, 2}, 3}, {2, 3, 4, {0, 1, 2}, 2}, {2, 2, 5, {1, -1}, 1}, {3, 3, 3, {0, 1, 2}, 1}, {3, 2, 4, {0, 1, -1}, 1}, {1, 4, 4, {0, 1, 2}, 2}};
     for (auto &co : coos) {
         if (!go("C:from_coo"))
             break;
@@ -726,7 +761,7 @@ int main(int argc, char **argv)
     // ================================================================= E, F, G
     run_ops_phases(thorough, states_total, bound);
     if (thorough)
-        closure_and_bfs({{2, 4}, {1, 10}, {3, 4}}, "-large");
+        closure_and_bfs({{2, 4}, {1, 10}, {3, 4}}, "-large"); // BFS: shapes with <= 10 cells
 
     R.states = states_total;
     R.transitions = R.evaluations;
